@@ -598,13 +598,6 @@ func main() {
 	if repo == "" {
 		repo = "/repo"
 	}
-	dir, err := os.MkdirTemp(work, "t10-")
-	if err != nil {
-		fmt.Fprintln(os.Stderr, err)
-		os.Exit(3)
-	}
-	defer os.RemoveAll(dir)
-
 	var cases []Case
 	if a.Replay != "" {
 		if err := vh.ReadReplay(a.Replay, &cases); err != nil {
@@ -619,6 +612,12 @@ func main() {
 		fmt.Fprintln(os.Stderr, err)
 		os.Exit(3)
 	}
+	dir, err := os.MkdirTemp(work, "t10-")
+	if err != nil {
+		fmt.Fprintln(os.Stderr, err)
+		os.Exit(3)
+	}
+	defer os.RemoveAll(dir)
 	for i := range cases {
 		c := &cases[i]
 		func() {
